@@ -5,3 +5,4 @@ import MirGen.Effects
 import MirGen.ChordRe
 import MirGen.Scalars
 import MirGen.Defaults
+import MirGen.SegIndex
